@@ -286,6 +286,7 @@ static void op_memattr_set(struct hx *h, struct hx_result *res)
   /* pick an attribute id among the existing ones (and sometimes an invalid one) */
   unsigned nattr = 0; const char *nm;
   while (hwloc_memattr_get_name(t, nattr, &nm) == 0 && nattr < 256) nattr++;
+  if (!nattr && !h->allow_bad_args) { res->rc = -1; res->err = EINVAL; res->must_be_unchanged = 1; snprintf(res->desc, sizeof res->desc, "memattr_set_value: no attribute exists"); snprintf(res->cls, sizeof res->cls, "memattr_set.none"); return; }
   hwloc_memattr_id_t id = (hwloc_memattr_id_t)hv_below(r, nattr + (h->allow_bad_args ? 1 : 0));
   unsigned long aflags = 0; hwloc_memattr_get_flags(t, id, &aflags);
   hwloc_obj_t target = hv_chance(r, 9, 10) ? pick_of_depth(h, HWLOC_TYPE_DEPTH_NUMANODE) : hx_pick_obj(h, 0);
